@@ -6,13 +6,36 @@ Local Open Scope N_scope.
 
 (* A case names every byte string once, in a table that also carries the canonical name of its
    SHA-256 (computed by the Go side); operations and observations refer to table indices. *)
+(* compact, monomorphic spelling of observations (fast to elaborate) *)
+Inductive vw :=
+| V0                                        (* nothing readable *)
+| VD (d s : N)                              (* data (table index), size; no metainfo *)
+| VM (d s mn mc : N) (pl : Z)               (* data, size, metainfo (name, table index of the bytes it describes, piece length) *)
+| VX (d s : option N) (m : option (N * N * Z)).
+Definition vw_view (v : vw) : view N :=
+  match v with
+  | V0 => mkview None None None
+  | VD d s => mkview (Some d) (Some s) None
+  | VM d s mn mc pl => mkview (Some d) (Some s) (Some (mn, mc, pl))
+  | VX d s m => mkview d s m
+  end.
+Inductive ob :=
+| OB (r : out) (v : list vw)                (* the HTTP views equal the direct views *)
+| OB2 (r : out) (dv hv : list vw).
+Definition ob_obs (o : ob) : obs N :=
+  match o with
+  | OB r v => (r, map vw_view v, map vw_view v)
+  | OB2 r dv hv => (r, map vw_view dv, map vw_view hv)
+  end.
+
 Record case := mkcase {
   k_mem : bool; k_skip : bool; k_lenchk : bool; k_retry : N; k_ttl : N; k_genpl : Z;
   k_names : list N;                (* the names observed after every operation *)
   k_tab : list (bytes * N);
   k_ops : list (op N);
-  k_obs : list (obs N)
+  k_ob : list ob
 }.
+Definition k_obs (c : case) : list (obs N) := map ob_obs (k_ob c).
 
 (* the model evaluated is the FIXED code (fixes/C01_mem_path_verify.patch applied) *)
 Definition cfg_of (c : case) : cfg :=
